@@ -155,8 +155,10 @@ func (s *state) walk(dot *Value, node parse.Node) error {
 		err := ns.walk(nd, t.Root)
 		s.in.depth--
 		return err
-	case *parse.BreakNode, *parse.ContinueNode:
-		return s.errf(n, "break/continue are outside the supported template subset")
+	case *parse.BreakNode:
+		return errBreak
+	case *parse.ContinueNode:
+		return errContinue
 	default:
 		return s.errf(node, "node kind %T is outside the supported template subset", node)
 	}
@@ -213,13 +215,24 @@ func (s *state) walkRange(dot *Value, r *parse.RangeNode) error {
 			s.push(r.Pipe.Decl[0].Ident[0], Int(int64(i)))
 			s.push(r.Pipe.Decl[1].Ident[0], el)
 		}
-		if err := s.walk(el, r.List); err != nil {
+		err := s.walk(el, r.List)
+		s.pop(mm)
+		if err == errContinue {
+			continue
+		}
+		if err == errBreak {
+			break
+		}
+		if err != nil {
 			return err
 		}
-		s.pop(mm)
 	}
 	return nil
 }
+
+// control-flow signals of {{break}} and {{continue}} (unwound to the innermost range)
+var errBreak = fmt.Errorf("break")
+var errContinue = fmt.Errorf("continue")
 
 func (s *state) evalPipelineNoDecl(dot *Value, pipe *parse.PipeNode) (*Value, error) {
 	s.in.Covered[pipe] = true
